@@ -86,6 +86,15 @@ def selected(mode, t, l, lv, rep2, nest, sh=0):
     t, l, lv = pick(TPAT, t), pick(LPAT, l), pick(LVL, lv)
     rep2, nest = cb(rep2), cb(nest)
     sh = pick(SHUF, sh)
+    # the random module itself is replaced while CrossHair traces; --shuffle therefore draws from a recorded stream
+    # (the C11 stub: same seed -> same stream in every process of the run)
+    from harness import c11
+    import random as _random
+    from zope.testrunner import shuffle as SH
+    if sh:
+        c11.install_rng([3, 1, 4, 1, 5, 9, 2, 6, 5, 3, 5, 8, 9, 7, 9, 3] if sh[-1] == '7' else [2, 7, 1, 8, 2, 8, 1, 8, 2, 8, 4, 5, 9, 0, 4, 5])
+    else:
+        SH.random = _random
     with untraced():
         tdd = {'A': 2} if mode == 'nie' else {}
         world = FR.World({n: W.PASS for n in NAMES}, td=tdd, levels=LEVELS, order=['b0', 'u1', 'x0', 'a1', 'b1', 'a0', 'u0', 'b2', 'x1'], nest=nest, suite_level=5)
